@@ -61,6 +61,10 @@ theorem Rel.unmodelled {R : α → β → Prop} : Rel R (Res.unmodelled) (Res.un
 theorem Rel.bind {S : α → β → Prop} {R : α' → β' → Prop} {m : Res α} {m' : Res β} {f : α → Res α'} {f' : β → Res β'}
     (hm : Rel S m m') (hf : ∀ a b, S a b → Rel R (f a) (f' b)) : Rel R (m >>= f) (m' >>= f') := by
   cases m <;> cases m' <;> simp_all [Rel]
+/-- `bind` where the continuation may use that both first steps succeeded -/
+theorem Rel.bind' {S : α → β → Prop} {R : α' → β' → Prop} {m : Res α} {m' : Res β} {f : α → Res α'} {f' : β → Res β'}
+    (hm : Rel S m m') (hf : ∀ a b, S a b → m = .ok a → Rel R (f a) (f' b)) : Rel R (m >>= f) (m' >>= f') := by
+  cases m <;> cases m' <;> simp_all [Rel]
 theorem Rel.bind_eq {R : α' → β' → Prop} {m m' : Res α} {f : α → Res α'} {f' : α → Res β'}
     (hm : m = m') (hf : ∀ a, Rel R (f a) (f' a)) : Rel R (m >>= f) (m' >>= f') :=
   Rel.bind (Rel.of_eq hm) (fun a b h => by subst h; exact hf a)
